@@ -388,6 +388,17 @@ def mon_C12(s):
                 if not t or t.get("with") is None:
                     continue
                 ids = [a["item_id"] for a in o["actions"]]
+                pre = s["replies"][i - 1].get("state") if i else None
+                if pre:
+                    sx = [x for x in pre["staged"] if x["id"] == o["id"] and x["route"] == o["route"]]
+                    if sx and sx[0]["items"]:
+                        bad = [j for j in ids if j < len(sx[0]["items"]) and sx[0]["items"][j] != "null"]
+                        unset = [j for j, v in enumerate(sx[0]["items"]) if v == "null"]
+                        if bad:
+                            out.append(V("items %s of %s offered although their status is %s" % (
+                                bad, o["id"], [sx[0]["items"][j] for j in bad]), i, region_of(s, i)))
+                        elif o["concurrency"] is None and sorted(ids) != unset:
+                            out.append(V("items offered %s, not run yet %s" % (ids, unset), i, region_of(s, i)))
                 k = (o["id"], o["route"])
                 seen = offered.setdefault(k, [])
                 dup = [x for x in ids if x in seen]
@@ -409,6 +420,7 @@ def mon_C12(s):
 def mon_C13(s):
     out = []
     prev = None
+    td = tasks_def(s)
     for i, (op, r) in enumerate(zip(s["ops"], s["replies"])):
         st = r.get("state")
         if st is None:
@@ -417,6 +429,14 @@ def mon_C13(s):
             rt = t.get("retry")
             if rt and isinstance(rt["count"], int) and not isinstance(rt["count"], bool) and rt["tally"] > max(rt["count"], 0):
                 out.append(V("task %s retried %d times with count %s" % (t["id"], rt["tally"], rt["count"]), i))
+            d = td.get(t["id"])
+            if rt and d and d.get("retry") is not None and "lit" in d["retry"]["count"] \
+                    and not any("retry" in tr["do"] for tr in d["next"]):
+                want = d["retry"]["count"]["lit"]
+                if rt["count"] != want:
+                    out.append(V("task %s has retry count %s, the definition says %s" % (t["id"], rt["count"], want), i))
+                if rt["tally"] > want:
+                    out.append(V("task %s retried %d times, the definition allows %s" % (t["id"], rt["tally"], want), i))
         if prev is not None and op["op"] == "report":
             key = "%s__r%s" % (op["task"], op["route"])
             idx = st["tasks"].get(key)
@@ -513,8 +533,7 @@ def mon_C18(s):
                 if (a["id"], a["route"]) != (b["id"], b["route"]):
                     out.append(V("record identity changed", i))
                 elif a["ctxs_in"] != b["ctxs_in"] or a["prev"] != b["prev"]:
-                    out.append(V("context/predecessors of started record %s changed" % a["id"], i,
-                                 "D2" if has_count_join_below_all(s) else None))
+                    out.append(V("context/predecessors of started record %s changed" % a["id"], i))
                 elif any(a["next"].values()) or a["next"]:
                     # decisions were recorded: status and decisions are frozen
                     ak = {k: v for k, v in a["next"].items()}
@@ -624,13 +643,107 @@ def mon_C01(s):
     return out
 
 
+def _merge(left, right):
+    for k, v in right.items():
+        if k in left and isinstance(left[k], dict) and isinstance(v, dict):
+            left[k] = _merge(dict(left[k]), v)
+        else:
+            left[k] = v
+    return left
+
+
+def mon_C06(s):
+    """(1) the context a task is offered with is the overlay, in arrival order, of exactly the
+    context snapshots its staged entry lists; (2) the snapshot a transition appends contains
+    exactly the variables that transition publishes; (3) a value published as a plain reference
+    to a never-republished workflow variable is that variable's value, unchanged"""
+    out = []
+    td = tasks_def(s)
+    vars_lit = {n: e["lit"] for n, e in s["def"]["vars"] if "lit" in e}
+    republished = set(n for t in s["def"]["tasks"] for tr in t["next"] for n, _ in tr["publish"])
+    from harness import render
+    for i, (op, r) in enumerate(zip(s["ops"], s["replies"])):
+        st = r.get("state")
+        if st is None:
+            continue
+        if op["op"] == "next" and isinstance(r["res"], list) and i > 0:
+            pre = s["replies"][i - 1]["state"]
+            for o in r["res"]:
+                sx = [x for x in pre["staged"] if x["id"] == o["id"] and x["route"] == o["route"]]
+                if not sx:
+                    continue
+                exp = {}
+                try:
+                    for idx in sx[0]["ctxs_in"]:
+                        exp = _merge(exp, json.loads(json.dumps(pre["contexts"][idx])))
+                except Exception:
+                    continue
+                got = {k: v for k, v in o["ctx"].items() if not k.startswith("__")}
+                if json.dumps(exp, sort_keys=True) != json.dumps(got, sort_keys=True):
+                    out.append(V("task %s is rendered with a context that is not the overlay of its inbound snapshots in arrival order" % o["id"], i,
+                                 "D7" if False else None))
+                t = td.get(o["id"])
+                if t and t.get("with") is None:
+                    for a in o["actions"]:
+                        for name, e in t["input"]:
+                            if e == {"ctx": "y"} and "y" in vars_lit and "y" not in republished and isinstance(a["input"], dict):
+                                if json.dumps(a["input"].get(name)) != json.dumps(render.undict(vars_lit["y"])):
+                                    out.append(V("input %s of %s is %r, the variable it references is %r" % (
+                                        name, o["id"], a["input"].get(name), vars_lit["y"]), i))
+        if op["op"] == "report" and not raised(r):
+            idx = st["tasks"].get("%s__r%s" % (op["task"], op["route"]))
+            t = td.get(op["task"])
+            if idx is None or not t:
+                continue
+            rec = st["sequence"][idx]
+            if rec["ctxs_out"] and rec["status"] in TERMINAL:
+                for tid, cidx in rec["ctxs_out"].items():
+                    dst, key = tid.rsplit("__t", 1)
+                    refs = [ri for ri, tr in enumerate(t["next"]) if dst in tr["do"]]
+                    # the key-th distinct transition to dst
+                    seen = []
+                    for ri in refs:
+                        if ri not in seen:
+                            seen.append(ri)
+                    if int(key) < len(seen) and cidx < len(st["contexts"]):
+                        tr = t["next"][seen[int(key)]]
+                        names = set(n for n, _ in tr["publish"])
+                        got = set(st["contexts"][cidx].keys())
+                        if got != names:
+                            out.append(V("transition %s -> %s appended a snapshot with variables %s, it publishes %s" % (
+                                op["task"], dst, sorted(got), sorted(names)), i))
+                        for n, e in tr["publish"]:
+                            if e == {"ctx": "y"} and "y" in vars_lit and "y" not in republished and n in st["contexts"][cidx]:
+                                if json.dumps(st["contexts"][cidx][n]) != json.dumps(render.undict(vars_lit["y"])):
+                                    out.append(V("published %s is %r, the variable it references is %r" % (
+                                        n, st["contexts"][cidx][n], vars_lit["y"]), i))
+    return out
+
+
+def mon_C17(s):
+    out = []
+    for i, (op, r) in enumerate(zip(s["ops"], s["replies"])):
+        if op["op"] == "rerun" and i > 0 and not raised(r):
+            before = s["replies"][i - 1].get("state")
+            if before and before["status"] not in ("succeeded", "failed", "canceled", "timeout", "abandoned"):
+                out.append(V("rerun accepted while the workflow is %s" % before["status"], i))
+            st = r.get("state")
+            if st and st["status"] != "resuming":
+                out.append(V("accepted rerun left the workflow %s" % st["status"], i))
+            known = set(before["tasks"].keys()) if before else set()
+            for q in op["reqs"]:
+                if "%s__r%s" % (q["task"], q["route"]) not in known:
+                    out.append(V("rerun accepted for a task execution that does not exist: %s" % q["task"], i))
+    return out
+
+
 def none(s):
     return []
 
 
 MON = {
-    "C01": mon_C01, "C02": mon_C02, "C03": mon_C03, "C04": mon_C04, "C05": none, "C06": none,
+    "C01": mon_C01, "C02": mon_C02, "C03": mon_C03, "C04": mon_C04, "C05": none, "C06": mon_C06,
     "C07": mon_C07, "C08": none, "C09": mon_C09, "C10": mon_C10, "C11": mon_C11, "C12": mon_C12,
-    "C13": mon_C13, "C14": none, "C15": mon_C15, "C16": none, "C17": none, "C18": mon_C18,
+    "C13": mon_C13, "C14": none, "C15": mon_C15, "C16": mon_C06, "C17": mon_C17, "C18": mon_C18,
     "C19": mon_C19, "C20": none,
 }
